@@ -33,6 +33,8 @@ impl ExtantMap {
 pub struct NewMap { pub m: Ghost<Map<Id, (Job, TaskH)>> }
 impl NewMap {
     #[verifier::external_body]
+    pub fn get(&self, id: &Id) -> (r: Option<&(Job, TaskH)>) ensures (r is Some) == self.m@.contains_key(*id), r is Some ==> *r->Some_0 == self.m@[*id] { unimplemented!() }
+    #[verifier::external_body]
     pub fn insert(&mut self, id: Id, v: (Job, TaskH)) -> (r: Option<(Job, TaskH)>) ensures final(self).m@ == old(self).m@.insert(id, v) { unimplemented!() }
 }
 pub struct Handler { pub extant: ExtantMap, pub new: NewMap }
